@@ -31,6 +31,28 @@ Theorem C09_ops_sideeffects : forall (X Y : Type) (f : X -> Y -> X) (g : X -> X)
 Proof. exact P_sideeffects. Qed.
 Print Assumptions C09_ops_sideeffects.
 
+(* aliasing: v @= s where s refers to lane k of v itself.  The operator takes s by value: every lane combines with the ORIGINAL lane k *)
+Theorem C09_assign_alias_snapshot : forall (X : Type) (f : X -> X -> X) (d : X) (v : list X) (k l : nat), l < length v ->
+  length (fst (c09_assign_vs_lane f d v k)) = length v /\
+  snd (c09_assign_vs_lane f d v k) = fst (c09_assign_vs_lane f d v k) /\
+  c09_lane d l (fst (c09_assign_vs_lane f d v k)) = f (c09_lane d l v) (c09_lane d k v).
+Proof. exact P_assign_alias_snapshot. Qed.
+Print Assumptions C09_assign_alias_snapshot.
+
+(* a by-REFERENCE scalar parameter (not the code) re-reads lane k in every iteration: it differs exactly in the lanes after k, which
+   combine with the already updated lane k *)
+Theorem C09_assign_byref_lanes : forall (X : Type) (f : X -> X -> X) (d : X) (v : list X) (k l : nat), k < length v -> l < length v ->
+  c09_lane d l (c09_assign_vs_lane_byref f d v k) =
+  if l <=? k then f (c09_lane d l v) (c09_lane d k v) else f (c09_lane d l v) (f (c09_lane d k v) (c09_lane d k v)).
+Proof. exact P_assign_byref_lanes. Qed.
+Print Assumptions C09_assign_byref_lanes.
+
+Theorem C09_assign_byref_refuted :
+  exists (f : nat -> nat -> nat) (v : list nat) (k : nat), k < length v /\
+    c09_assign_vs_lane_byref f 0 v k <> fst (c09_assign_vs_lane f 0 v k).
+Proof. exact P_assign_byref_refuted. Qed.
+Print Assumptions C09_assign_byref_refuted.
+
 Theorem C09_cond_lanewise : forall (X : Type) (S : nat) (d : X) (m : list bool) (a b : list X),
   length m = S -> length a = S -> length b = S ->
   length (c09_cond m a b) = S /\
@@ -256,3 +278,10 @@ Example C09_example_traits :
   t = C09_TSimd 2 64 (C09_TSimd 2 16 (C09_TScalar 3 true true)) /\ c09_ty_lanes t = 4 /\ c09_ty_hasnan t = true /\
   c09_ty_hasnan (c09_ty_mask t) = false.
 Proof. vm_compute. repeat split. Qed.
+
+(* v -= v[0] on (5,7,9): by value (0,2,4), by reference (0,7,9); aliasing the LAST lane is harmless *)
+Example C09_example_assign_alias :
+  fst (c09_assign_vs_lane Nat.sub 0 [5; 7; 9] 0) = [0; 2; 4] /\
+  c09_assign_vs_lane_byref Nat.sub 0 [5; 7; 9] 0 = [0; 7; 9] /\
+  c09_assign_vs_lane_byref Nat.sub 0 [5; 7; 9] 2 = fst (c09_assign_vs_lane Nat.sub 0 [5; 7; 9] 2).
+Proof. exact P_assign_alias_values. Qed.
